@@ -72,13 +72,16 @@ class Rec:
             return Gr(x)
 
         jac = g if mode == "callable" else mode
-        self.sf = prepare_scalar_function(f, PTS[0].copy(), jac=jac, bounds=(LB, UB), epsilon=1e-7)
+        self.x0arr = PTS[0].copy()   # the caller keeps (and may overwrite) the array it constructed with
+        self.sf = prepare_scalar_function(f, self.x0arr, jac=jac, bounds=(LB, UB), epsilon=1e-7)
 
 
 def symbols(extra: bool) -> List[Tuple[str, int]]:
     syms = [(op, j) for op in ("fun", "grad", "fg") for j in range(3)]
     if extra:
-        syms += [("scale", 0), ("scale", 1), ("mut", 0)]
+        # "mut": the caller overwrites in place the array it passed last (or constructed with);
+        # "samefun"/"samefg": the caller passes that very array object again
+        syms += [("scale", 0), ("scale", 1), ("mut", 0), ("samefun", 0), ("samefg", 0)]
     return syms
 
 
@@ -88,8 +91,8 @@ def run_python(mode, hist) -> Tuple[List[str], List[str]]:
     sf = r.sf
     ops = [f"sf.new {'callable' if mode == 'callable' else 'fd'} {vhex(PTS[0])} {vhex(LB)} {vhex(UB)}"]
     exp = ["ok"]
-    last = None
-    mutc = 0
+    last = r.x0arr
+    lastj = 0
     for op, j in hist:
         if op == "scale":
             sf.scaling_factor = SCALES[j]
@@ -99,12 +102,14 @@ def run_python(mode, hist) -> Tuple[List[str], List[str]]:
         if op == "mut":
             # the caller overwrites, in place, the array it passed last (value becomes the
             # next alphabet point); the model has value semantics, so nothing happens there
-            if last is not None:
-                mutc += 1
-                last[:] = PTS[(mutc) % 3]
+            lastj = (lastj + 1) % 3
+            last[:] = PTS[lastj]
             continue
-        arr = PTS[j].copy()
-        last = arr
+        if op.startswith("same"):
+            op, j, arr = op[4:], lastj, last      # the very same array object
+        else:
+            arr = PTS[j].copy()
+        last, lastj = arr, j
         if op == "fun":
             v = sf.fun(arr)
             ops.append(f"sf.fun {vhex(PTS[j])}")
@@ -128,8 +133,8 @@ def oracle_check(mode, hist) -> List[str]:
     sf = r.sf
     errs = []
     scale = 1.0
-    last = None
-    mutc = 0
+    last = r.x0arr
+    lastj = 0
     cur_pt, f_done, g_done = None, False, False
     for k, (op, j) in enumerate(hist):
         if op == "scale":
@@ -137,12 +142,14 @@ def oracle_check(mode, hist) -> List[str]:
             scale = SCALES[j]
             continue
         if op == "mut":
-            if last is not None:
-                mutc += 1
-                last[:] = PTS[mutc % 3]
+            lastj = (lastj + 1) % 3
+            last[:] = PTS[lastj]
             continue
-        arr = PTS[j].copy()
-        last = arr
+        if op.startswith("same"):
+            op, j, arr = op[4:], lastj, last
+        else:
+            arr = PTS[j].copy()
+        last, lastj = arr, j
         n0 = len(r.calls)
         nf0 = sum(1 for c in r.calls if c[0] == "F")
         if op == "fun":
@@ -272,9 +279,9 @@ def run(tier: str, seed: int) -> int:
                 rep.evaluations += 1
                 rep.count(f"mode={mode}")
                 rep.count(f"len={len(h)}")
-                if any(o in ("scale", "mut") for o, _ in h):
+                if any(o in ("scale", "mut", "samefun", "samefg") for o, _ in h):
                     rep.count("with_scale_or_mutation")
-                if len(set(j for o, j in h if o in ("fun", "grad", "fg"))) > 1:
+                if len(set(j for o, j in h if o in ("fun", "grad", "fg"))) > 1 or any(o == "mut" for o, _ in h):
                     rep.nontrivial.add((str(mode), tuple(h)))
                 if errs:
                     prop_fail.append({"mode": mode, "history": h, "errors": errs})
